@@ -84,7 +84,7 @@ def plan(tier):
 
     pl.label_filter = lf
     pl.static = [static_funnel, lambda: lexfacts.obligations_L1(PID), lambda: lexfacts.obligations_ascii(PID),
-                 lambda: lexfacts.obligations_structure(PID), lambda: lexfacts.obligations_no_nested_repeat(PID)]
+                 lambda: lexfacts.obligations_structure(PID), lambda: lexfacts.obligations_no_nested_repeat(PID), lambda: lexfacts.obligations_no_adjacent_overlapping_repeats(PID)]
     pl.bounded = [bounded_tokens, bounded_generated, bounded_bytes]
     pl.functions = common.ARG_FUNCTIONS + [("sievelib.commands", "get_command_instance"), ("sievelib.commands", "RequireCommand.complete_cb"),
                                            ("sievelib.parser", "Parser.parse"), ("sievelib.parser", "Lexer.scan"), ("sievelib.parser", "Parser.parse_file")]
@@ -93,7 +93,8 @@ def plan(tier):
                      "__check_command_completion) for all inputs: BOUNDED (enumeration + byte mutations, with a lexer-step counter)",
                      "parse_file: I/O errors of open()/read() propagate (not part of the claim examined)"]
     pl.explanation = (
-        "Deductive: (L1) no lexer rule matches the empty string, so every iteration of Lexer.scan consumes at least one "
+        "Deductive: (L3/L4) no lexer rule nests an unbounded repetition in another or puts two unbounded repetitions over overlapping "
+        "classes next to each other (exponential / quadratic backtracking on non-matching input); (L1) no lexer rule matches the empty string, so every iteration of Lexer.scan consumes at least one "
         "byte (z3 regex emptiness per rule); identifier/tag/number tokens are ASCII, so their decode cannot raise; (X) the "
         "exception funnel bottom-up -- command lookup maps EVERY name to a concrete command class, UnknownCommand or "
         "ExtensionNotLoaded and nothing else; check_next_arg raises only CommandError subclasses for every class, state, "
